@@ -133,10 +133,41 @@ ATTRS = ["none", "short_name", "byte_position", "bit_length", "semantic", "coded
          "linked_dop_bit_length", "linked_dop_name", "linked_dop_physical_type", "default_value"]
 
 
-@harness(props=["C18"], strength="E", family=lambda t, s: [{"attr": a} for a in ATTRS],
+IN_PLACE = {"short_name": "Parameter name", "byte_position": "Byte position", "bit_length": "Bit Length",
+            "semantic": "Semantic", "coded_value": "Value", "data_type": "Data type"}
+
+
+def _edit_in_place(p, attr):
+    if attr == "short_name":
+        p.short_name = "q"
+    elif attr == "byte_position":
+        p.byte_position = 2
+    elif attr == "bit_length":
+        p.diag_coded_type.bit_length = 16
+    elif attr == "semantic":
+        p.semantic = "OTHER"
+    elif attr == "coded_value":
+        p.coded_value = 6
+    elif attr == "data_type":
+        p.diag_coded_type.base_data_type = DataType.A_INT32
+
+
+@harness(props=["C18"], strength="E", family=lambda t, s: [{"attr": a} for a in ATTRS] +
+         [{"attr": a, "how": "edited-in-place"} for a in IN_PLACE],
          functions=[Comparison.compare_parameters], covers=["done"])
-def parameter_comparison(attr):
-    """compare_parameters lists exactly the attributes on which the two parameters differ"""
+def parameter_comparison(attr, how="rebuilt"):
+    """compare_parameters lists exactly the attributes on which the two parameters differ - whether the second
+    parameter was built with the other value or is a copy whose attribute was changed afterwards (the way the example
+    script that derives a modified database edits it)"""
+    if how == "edited-in-place":
+        p1 = coded_const("p", 5, 1, 8, "DATA")
+        p2 = coded_const("p", 5, 1, 8, "DATA")
+        p2.get_static_bit_length()  # (the objects have been in use before the edit)
+        _edit_in_place(p2, attr)
+        r = Comparison().compare_parameters(p1, p2)
+        H.cover("done")
+        H.check("C18:exactly-the-differing-attributes-are-listed", r["Property"] == [IN_PLACE[attr]])
+        return
     if attr in ("linked_dop_bit_length", "linked_dop_name", "linked_dop_physical_type", "default_value"):
         return _dop_parameter_comparison(attr)
     p1 = coded_const("p", 5, 1, 8, "DATA")
